@@ -74,6 +74,12 @@ def gen_cases(tier, seed):
         flag = FLAGS[i % 6]
         mode = i % 3   # 0: plain+flag, 1: preimage+flag arg, 2: preimage, flag parsed from msg
         yield "api", {"key": hex(key), "msg": rand_bytes(rng, ln).hex(), "flag": flag, "mode": mode, "both_forms": i % 5 == 0}
+    # (a'') INCONSISTENT arguments: a preimage that commits to one signature-hash type, signed "as" another.  No valid signature
+    # exists for such a request (the suffix byte could not match the committed type): it is refused, or answered with the committed type
+    for i in range(12 if tier == "quick" else 120):
+        f1 = FLAGS[i % 6]
+        f2 = FLAGS[(i + 1 + i // 6 % 5) % 6]
+        yield "api_mismatch", {"key": hex(rng.randrange(1, N)), "msg": rand_bytes(rng, rng.choice([0, 32, 100])).hex(), "committed": f1, "argument": f2, "via": ["api", "cli", "cli_default"][i % 3]}
     # (a') the same through the command line: `bits sig <msg> --sighash .. [--anyone-can-pay] [--msg-preimage]`
     for i in range(24 if tier == "quick" else 300):
         yield "cli_sig", {"key": hex(rng.choice(keys) if i % 3 == 0 else rng.randrange(1, N)), "msg": rand_bytes(rng, rng.choice([0, 1, 32, 100])).hex(),
@@ -99,7 +105,7 @@ def gen_cases(tier, seed):
 
 
 def required(tier):
-    return {"api.signed": 300, "cli.signed": 20, "scripted.signed": 300, "class.s_short_topbit": 20, "class.digest_ge_n": 10,
+    return {"api.signed": 300, "cli.signed": 20, "mismatch.refused": 8, "scripted.signed": 300, "class.s_short_topbit": 20, "class.digest_ge_n": 10,
             "class.retry_s0": 1, "class.r_top_80": 3, "class.r_top_00": 3, "class.r_top_7f": 3, "class.inner_retry_draw0": 5, "reuse.pairs_checked": 100,
             "small.signed": 10000, "small.p43.keys": 30, "small.retry_branch": 10,
             "contract:sign.range_low_s": 1000, "contract:der_encode_sig.strict_roundtrip": 300,
@@ -289,6 +295,37 @@ def run_case(kind, params, ctx):
             ctx.count("api.lib_verified")
             if ok != "OK":
                 ctx.violation(f"lib-verify-rejects/sig_verify/mode{mode}", f"sig_verify(compressed={comp}) -> {ok!r}")
+        return
+    if kind == "api_mismatch":
+        from . import c20
+        d = int(params["key"], 16)
+        f1, f2, via = params["committed"], params["argument"], params["via"]
+        pre = bytes.fromhex(params["msg"]) + f1.to_bytes(4, "little")
+        ctx.count("mismatch.requests")
+        ctx.seen("mm", (params["msg"], f1, f2, via))
+        try:
+            if via == "api":
+                out = bytes(bu.sig(k32(d), pre, sighash_flag=f2, msg_preimage=True))
+            else:
+                if via == "cli_default":
+                    f2 = 1          # no --sighash option at all: the parser's default ("all") is forwarded
+                    opts = []
+                else:
+                    opts = ["--sighash", {1: "all", 2: "none", 3: "single"}[f2 & 3]] + (["--anyone-can-pay"] if f2 & 0x80 else [])
+                r = c20.run_main(["sig", pre.hex()] + opts + ["--msg-preimage", "-1x", "-0x"], c20.rep(k32(d), "hex"))
+                out = bytes.fromhex(r["out"].decode().strip()) if (not r["exit"] and r["ret"] is None and r["out"].strip()) else None
+        except ContractViolation:
+            raise
+        except Exception:
+            out = None
+        if f1 == f2:
+            return
+        if out is None:
+            ctx.count("mismatch.refused")
+            return
+        if out[-1] != f1:
+            ctx.violation(f"flag-suffix/inconsistent-arguments-accepted/{via}", f"preimage commits to type {f1:#x}, signing requested as {f2:#x}: returned a signature labelled {out[-1]:#x} "
+                          f"(its digest commits to {f1:#x}; no verifier that recomputes the message for {out[-1]:#x} accepts it)")
         return
     if kind == "cli_sig":
         from . import c20
